@@ -1,5 +1,5 @@
 (* Legacy.v — the client as it was BEFORE the `fix:` commits F6 / F7 (the codec findings are in LegacyCodec.v). *)
-From Zvt Require Import Base Length LengthProps Cp437 Encoding EncodingProps Codec Lookup Client.
+From Zvt Require Import Base Length LengthProps Cp437 Encoding EncodingProps Codec Lookup Client ClientProps.
 From Zvt Require Export LegacyCodec.
 Open Scope N_scope.
 
@@ -29,3 +29,17 @@ Lemma F10_refuted : legacy_tid_text 123456 = [49; 50; 51; 52; 53; 54] /\ legacy_
 Proof. split; vm_compute; reflexivity. Qed.
 Lemma F10_now : pad_dec 8 123456 = [48; 48; 49; 50; 51; 52; 53; 54] /\ pad_dec 8 0 = repeat 48 8.
 Proof. split; vm_compute; reflexivity. Qed.
+
+(* ---------- F11 (C20): get_pending took every abort of the query for its answer ---------- *)
+Definition legacy_h_pending (ixa : N) (_ : unit) (i : N) (v : value) : option (cres (list N)) * unit :=
+  (Some (if i =? ixa then
+           match field_of "zvt::packets::PartialReversalAbort" v 135 with
+           | Some (VSome (VInt r)) => if r =? 65535 then ROk [] else ROk [r]
+           | _ => ROk []
+           end
+         else RErr EUnexpectedPacket), tt).
+(* the terminal aborts the query with 0x9C: the old handler said "nothing pending", and end-of-day went ahead *)
+Lemma F11_refuted : forall ixa, fst (legacy_h_pending ixa tt ixa (VRec [VInt 156; VNone])) = Some (ROk []).
+Proof. intros ixa. unfold legacy_h_pending. rewrite N.eqb_refl. reflexivity. Qed.
+Lemma F11_now : forall ixa, fst (h_pending ixa tt ixa (VRec [VInt 156; VNone])) = Some (RErr (EAborted 156)).
+Proof. intros ixa. apply (pending_query_abort_surfaces 156 ixa [VNone]). lia. Qed.
